@@ -23,11 +23,10 @@ theorem sim_by_term {val : Val} {voters : List Id} {n : Nat} {s : Spec.State} {r
     (hty : Deliverable m.typ) (h0 : m.term ≠ 0) (hin : InOK val n (s.nodes n) s.msgs m)
     (h : (Raft.step (fuel + 1) m).run r = .ok (e, r')) : RaftSim val voters n s r' := by
   rcases Nat.lt_trichotomy m.term r.term with hlt | heq | hgt
-  · have := sim_lower_term hinv h0 hlt hty h
-    subst this
-    exact RaftSim.refl hinv
+  · exact RaftSim.refl (hinv.lower_term h0 hlt hty h)
   · exact H s r hinv hreach heq hin h
-  · obtain ⟨r1, s1, hrun, hmsgs, hdur, hinv1, ht1, _, h1⟩ := sim_raise_term hinv hgt hty h
+  · rcases sim_raise_term hinv hgt hty h with rfl | ⟨r1, s1, hrun, hmsgs, hdur, hinv1, ht1, _, h1⟩
+    · exact RaftSim.refl hinv
     have hact : ∀ a ∈ [Spec.Action.updateTerm n m.term], a.actor = n := by simp [Spec.Action.actor]
     refine RaftSim.trans hrun hact ?_
     refine H s1 r1 hinv1 (hrun.reachable hreach) ht1.symm ?_ h1
